@@ -529,7 +529,7 @@ func cmdCheck(args []string) {
 		"bounded: every claim holds only inside the per-harness bounds listed under coverage.harnesses[].bounds",
 		"engine intrinsics and harness stubs listed per harness are trusted models of the documented behaviour",
 		"one deterministic cooperative schedule for goroutines; virtual clock",
-		"z3 4.8.12 (deciding solver); unknown answers are never counted as a pass",
+		"z3 5.1.0 (z3-new) is the deciding solver; unknown answers are never counted as a pass",
 	}, ps.Assumptions...)
 	if len(samples) == 0 {
 		samples = append(samples, "no passing path sampled")
